@@ -304,7 +304,8 @@ func (w *acctWorld) step(rng *rand.Rand, concurrent bool) {
 			outcome = "miss"
 		}
 	case "restart":
-		if concurrent || w.srv != nil || w.restarts >= 3 {
+		// (an instance with a backend starts 512 lookup workers that never stop: at most one restart there)
+		if concurrent || w.srv != nil || w.restarts >= 3 || (w.px != nil && w.restarts >= 1) {
 			return
 		}
 		outcome = w.restart(rng)
